@@ -146,6 +146,9 @@ func (c *conn) open(buf []byte) error {
 }
 
 func (c *conn) write(data []byte) (n int, err error) {
+	if !c.opened { // closed earlier in this callback, the fd is no longer ours
+		return 0, net.ErrClosed
+	}
 	isET := c.loop.engine.opts.EdgeTriggeredIO
 	n = len(data)
 	// If there is pending data in outbound buffer,
@@ -191,6 +194,9 @@ loop:
 }
 
 func (c *conn) writev(bs [][]byte) (n int, err error) {
+	if !c.opened { // closed earlier in this callback, the fd is no longer ours
+		return 0, net.ErrClosed
+	}
 	isET := c.loop.engine.opts.EdgeTriggeredIO
 
 	for _, b := range bs {
@@ -460,6 +466,9 @@ func (c *conn) WriteTo(w io.Writer) (n int64, err error) {
 }
 
 func (c *conn) Flush() error {
+	if !c.opened {
+		return net.ErrClosed
+	}
 	if err := c.loop.write(c); err != nil {
 		return err
 	}
